@@ -428,6 +428,11 @@ class Inliner:
                                       self.optional_results):
                 self.generated |= {n.id for n in ast.walk(fn) if isinstance(n, ast.Name)
                                    and '_p' in n.id and n.id.rsplit('_p', 1)[0] in self.generated}
+            # tests of a bound argument against None (`if offsets is None: offsets = ..` in an
+            # inlined helper called with a value that is certainly not None) are decided
+            if any(isinstance(n, ast.Compare) and any(_is_none(c) for c in n.comparators)
+                   for n in ast.walk(fn)):
+                fn.body = _fold(fn.body, {}) or fn.body
             propagate_copies(fn, self.generated)
         ast.fix_missing_locations(fn)
         return fn
@@ -570,6 +575,10 @@ def inlined_function(index: RepoIndex, func: Func, exclude: Optional[Set[str]] =
         if not il.inlined:
             return func.node, []
         ast.parse(ast.unparse(node))   # sanity: still a well-formed function
+        # a helper that re-binds its own parameter (`xs = sorted(set(xs))`) leaves two
+        # straight-line assignments of the generated local: renamed apart, like at index time
+        from .normalise import ssa_straightline
+        node = ssa_straightline(node)
         return node, il.inlined
     except (NotInlinable, SyntaxError, RecursionError):
         return func.node, []
